@@ -2,7 +2,7 @@
    Statements only; proofs are in Proofs/CostSpec.v.  Model: Model/CostSpec.v *)
 From Coq Require Import List Bool Arith ZArith Permutation.
 Import ListNotations.
-Require Import Plinio.Model.CostSpec Plinio.Proofs.CostSpec.
+Require Import Plinio.Model.CostSpec Plinio.Proofs.CostSpec Plinio.Gen.CostSpecGen Plinio.Proofs.CostSpecGen.
 
 (* For EVERY sequence of registrations (any length, any layer types, duplicates allowed) the lookup
    returns what the documented three-way rule says: the satisfied constrained pattern if there is
@@ -29,6 +29,34 @@ Theorem C15_setitem_other_type : forall (F : Type) (s : spec F) (ty ty' : nat) (
   ty <> ty' -> getitem F (setitem F s ty' e) ty sat = getitem F s ty sat.
 Proof. exact setitem_other_type. Qed.
 
+
+(* ---- the same statements about the model GENERATED from the source of CostSpec.__setitem__ / __getitem__
+        (Gen/CostSpecGen.v, rewritten from the tree under test by translator/costspec2coq.py on every run) ---- *)
+(* the generated registration and lookup are extensionally the hand-written model ... *)
+Theorem C15_generated_setitem_is_model : forall (F : Type) (s : spec F) (ty : nat) (e : entry F),
+  setitem_gen F s ty e = setitem F s ty e.
+Proof. exact setitem_gen_eq. Qed.
+Theorem C15_generated_getitem_is_model : forall (F : Type) (s : spec F) (ty : nat) (sat : nat -> bool),
+  getitem_gen F s ty sat = getitem F s ty sat.
+Proof. exact getitem_gen_eq. Qed.
+
+(* ... hence the code as it is now obeys the documented rule for every registration sequence, *)
+Theorem C15_generated_lookup_rule : forall (F : Type) (regs : list (nat * entry F)) (ty : nat) (sat : nat -> bool),
+  getitem_gen F (register_all_gen F regs) ty sat = rule F sat (regs_of F regs ty).
+Proof. exact gen_getitem_rule. Qed.
+
+(* is independent of the registration order, *)
+Theorem C15_generated_lookup_perm : forall (F : Type) (regs regs' : list (nat * entry F)) (ty : nat) (sat : nat -> bool),
+  NoDup (map (pattern_of F) regs) -> Permutation regs regs' ->
+  getitem_gen F (register_all_gen F regs) ty sat = getitem_gen F (register_all_gen F regs') ty sat.
+Proof. exact gen_getitem_perm. Qed.
+
+(* and raises only when two constrained patterns both match. *)
+Theorem C15_generated_conflict_iff : forall (F : Type) (regs : list (nat * entry F)) (ty : nat) (sat : nat -> bool),
+  getitem_gen F (register_all_gen F regs) ty sat = Conflict <->
+  2 <= length (sat_constrained F sat (regs_of F regs ty)).
+Proof. exact gen_conflict_iff. Qed.
+
 (* The lookup of the pinned upstream commit (kept as getitem_v0) is order dependent. *)
 Theorem C15_upstream_order_refuted :
   exists regs regs' ty sat,
@@ -54,3 +82,8 @@ Print Assumptions C15_lookup_perm.
 Print Assumptions C15_conflict_iff.
 Print Assumptions C15_setitem_other_type.
 Print Assumptions C15_upstream_order_refuted.
+Print Assumptions C15_generated_setitem_is_model.
+Print Assumptions C15_generated_getitem_is_model.
+Print Assumptions C15_generated_lookup_rule.
+Print Assumptions C15_generated_lookup_perm.
+Print Assumptions C15_generated_conflict_iff.
